@@ -606,12 +606,76 @@ Proof.
   destruct (g_lines g); reflexivity.
 Qed.
 
+Lemma gpgmv_split_S f ws ls :
+  gpgmv_split (S f) ws ls
+  = let (g, rest) := consume false ws true gpg_init ls in
+    match g_lines g with
+    | [] => (Ok [], rest)
+    | l0 :: ls0 =>
+      if is_nil (g_pre g) && forallb ignorable_line (l0 :: ls0)
+      then gpgmv_split f ws rest else (Ok (l0 :: ls0), rest)
+    end.
+Proof. reflexivity. Qed.
+
+Lemma gpgmv_split_chomp ws f : forall ls,
+  forallb line_ok ls = true ->
+  gpgmv_split f ws (map chomp ls)
+  = (fst (gpgmv_split f ws ls), map chomp (snd (gpgmv_split f ws ls))).
+Proof.
+  induction f as [|f IH]; intros ls H; [reflexivity|].
+  rewrite !gpgmv_split_S. rewrite consume_chomp by exact H.
+  pose proof (consume_rest_forallb (P:=line_ok) false ws true gpg_init ls H) as Hr.
+  destruct (consume false ws true gpg_init ls) as [g rest]. cbn [fst snd] in *.
+  destruct (g_lines g) as [|l0 ls0]; [reflexivity|].
+  destruct (is_nil (g_pre g) && forallb ignorable_line (l0 :: ls0)); [now apply IH|reflexivity].
+Qed.
+
+(** what one call of the loop does, for enough fuel: it never fails, and what
+    is left is a suffix that is shorter whenever a payload was returned *)
+Lemma gpgmv_split_props ws f : forall ls,
+  (length ls < f)%nat ->
+  exists lines pre,
+    fst (gpgmv_split f ws ls) = Ok lines
+    /\ ls = pre ++ snd (gpgmv_split f ws ls)
+    /\ (lines <> [] -> pre <> []).
+Proof.
+  induction f as [|f IH]; intros ls Hf; [lia|].
+  rewrite gpgmv_split_S.
+  destruct (consume_suffix false ws ls true gpg_init) as [pre0 E0].
+  pose proof (consume_nil_lines false ws ls true gpg_init eq_refl) as Hlt.
+  destruct (consume false ws true gpg_init ls) as [g rest]. cbn [fst snd] in *.
+  destruct (g_lines g) as [|l0 ls0].
+  - exists [], pre0. cbn [fst snd]. repeat split; [exact E0|congruence].
+  - specialize (Hlt ltac:(discriminate)).
+    assert (Hpre0 : pre0 <> []).
+    { intros ->. cbn [app] in E0. subst rest. lia. }
+    destruct (is_nil (g_pre g) && forallb ignorable_line (l0 :: ls0)).
+    + destruct (IH rest ltac:(lia)) as (lines & pre1 & H1 & H2 & H3).
+      exists lines, (pre0 ++ pre1). split; [exact H1|]. split.
+      * rewrite <- app_assoc, <- H2. exact E0.
+      * intros _. destruct pre0; [congruence|discriminate].
+    + exists (l0 :: ls0), pre0. cbn [fst snd]. repeat split; [exact E0|]. intros _. exact Hpre0.
+Qed.
+
+Lemma gpgmv_split_fuel ws : forall f f' ls,
+  (length ls < f)%nat -> (length ls < f')%nat ->
+  gpgmv_split f ws ls = gpgmv_split f' ws ls.
+Proof.
+  induction f as [|f IH]; intros f' ls Hf Hf'; [lia|].
+  destruct f' as [|f']; [lia|]. rewrite !gpgmv_split_S.
+  pose proof (consume_nil_lines false ws ls true gpg_init eq_refl) as Hlt.
+  destruct (consume false ws true gpg_init ls) as [g rest]. cbn [fst snd] in *.
+  destruct (g_lines g) as [|l0 ls0]; [reflexivity|]. specialize (Hlt ltac:(discriminate)).
+  destruct (is_nil (g_pre g) && forallb ignorable_line (l0 :: ls0)); [|reflexivity].
+  apply IH; lia.
+Qed.
+
 Lemma gpgmv_init_chomp ws ls :
   forallb line_ok ls = true ->
   gpgmv_init ws (map chomp ls) = (fst (gpgmv_init ws ls), map chomp (snd (gpgmv_init ws ls))).
 Proof.
-  intros H. unfold gpgmv_init. rewrite consume_chomp by exact H.
-  destruct (consume false ws true gpg_init ls) as [g rest]. reflexivity.
+  intros H. unfold gpgmv_init. rewrite map_length. rewrite gpgmv_split_chomp by exact H.
+  destruct (gpgmv_split (S (length ls)) ws ls) as [r rest]. reflexivity.
 Qed.
 
 Lemma init_of_chomp c ws ls :
@@ -626,8 +690,9 @@ Proof.
   - pose proof (consume_rest_forallb (P:=P) true ws true gpg_init ls H) as Hr.
     destruct (consume true ws true gpg_init ls) as [g rest]. cbn [snd] in *.
     destruct (g_lines g); exact Hr.
-  - pose proof (consume_rest_forallb (P:=P) false ws true gpg_init ls H) as Hr.
-    destruct (consume false ws true gpg_init ls) as [g rest]. exact Hr.
+  - destruct (gpgmv_split_props ws (S (length ls)) ls ltac:(lia)) as (lines & pre & _ & E & _).
+    destruct (gpgmv_split (S (length ls)) ws ls) as [r rest]. cbn [snd] in *.
+    rewrite E in H. rewrite forallb_app in H. apply andb_true_iff in H. tauto.
 Qed.
 
 Theorem iter_loop_chomp f c ws : forall ls,
@@ -656,9 +721,11 @@ Proof.
   - pose proof (consume_nil_lines true ws ls true gpg_init eq_refl) as Hlt.
     destruct (consume true ws true gpg_init ls) as [g rest]. cbn [fst snd] in *.
     destruct (g_lines g) as [|l0 lines]; [discriminate|]. intros _. apply Hlt. discriminate.
-  - pose proof (consume_nil_lines false ws ls true gpg_init eq_refl) as Hlt.
-    destruct (consume false ws true gpg_init ls) as [g rest]. cbn [fst snd] in *.
-    destruct (g_lines g) as [|l0 lines]; [discriminate|]. intros _. apply Hlt. discriminate.
+  - destruct (gpgmv_split_props ws (S (length ls)) ls ltac:(lia)) as (lines & pre & E1 & E2 & Hne).
+    destruct (gpgmv_split (S (length ls)) ws ls) as [r rest]. cbn [fst snd] in *. subst r.
+    cbn [bind]. destruct lines as [|l0 lines]; [discriminate|]. intros _.
+    specialize (Hne ltac:(discriminate)). rewrite E2. rewrite app_length.
+    destruct pre; [congruence|cbn [length]; lia].
 Qed.
 
 (** any fuel above the number of lines gives the same answer *)
@@ -717,7 +784,9 @@ Qed.
 Lemma init_of_err c ws ls e : fst (init_of c ws ls) = Err e -> e = ValueError.
 Proof.
   destruct c; cbn [init_of]; [apply deb822_init_err|]. unfold gpgmv_init.
-  destruct (consume false ws true gpg_init ls) as [g r0]. cbn [fst]. apply deb822_init_err.
+  destruct (gpgmv_split_props ws (S (length ls)) ls ltac:(lia)) as (lines & pre & E1 & _).
+  destruct (gpgmv_split (S (length ls)) ws ls) as [r rest]. cbn [fst] in *. subst r.
+  cbn [bind]. apply deb822_init_err.
 Qed.
 
 (** the fuel of [iter_lines] is never exhausted *)
